@@ -101,7 +101,7 @@ fn fails_in(body: &ast::E, style: Style, ops: &[ast::Op], seed: u64) -> Option<(
 }
 
 /// Greedy shrinking of a failing program: the result names the failing construct.
-fn shrink(prog: &ast::E, style: Style, ops: &[ast::Op], first: (String, String, String)) -> (ast::E, (String, String, String)) {
+fn shrink(prog: &ast::E, style: Style, ops: &[ast::Op], first: (String, String, String), total: &mut u64) -> (ast::E, (String, String, String)) {
     let mut cur = ast::strip_prelude(prog).clone();
     let mut witness = first;
     let mut budget = 3000;
@@ -109,10 +109,11 @@ fn shrink(prog: &ast::E, style: Style, ops: &[ast::Op], first: (String, String, 
         let mut cands: Vec<ast::E> = ast::reductions(&cur).into_iter().filter(|c| ast::valid(c, true)).collect();
         cands.sort_by_key(|c| c.size());
         for c in cands {
-            if budget == 0 {
+            if budget == 0 || *total == 0 {
                 break 'outer;
             }
             budget -= 1;
+            *total -= 1;
             if c.size() >= cur.size() && !(c.size() == cur.size() && ast::shape(&c) != ast::shape(&cur)) {
                 // only strictly smaller candidates (same-size rewrites to `x` of atoms excepted)
                 if c.size() > cur.size() {
@@ -227,6 +228,10 @@ fn main() {
     let mut n_virtual = 0u64;
     let mut rt_mismatch = 0u64;
     let mut n_corpus = 0u64;
+    // every failing case is minimised (its shape is the violation key) until this many candidate
+    // evaluations have been spent; later failures are only counted
+    let mut shrink_total = 250_000u64;
+    let mut n_unshrunk = 0u64;
 
     // ---- corpus: hand-picked sources with their expected tree (corpus/C08/<name>.glu + <name>.tree), run first ----
     let corpus_dir = concat!(env!("CARGO_MANIFEST_DIR"), "/../corpus/C08");
@@ -278,8 +283,8 @@ fn main() {
             }
             if line != expected {
                 rt_mismatch += 1;
-                if rt_mismatch <= 40 + n_corpus {
-                    let (min, (msrc, mexp, mobs)) = shrink(&prog, style, &ops, (src.clone(), expected.clone(), line.clone()));
+                if shrink_total > 0 {
+                    let (min, (msrc, mexp, mobs)) = shrink(&prog, style, &ops, (src.clone(), expected.clone(), line.clone()), &mut shrink_total);
                     let key = format!("roundtrip:{}:{}", style.name(), ast::shape(&min));
                     writeln!(
                         f_fail,
@@ -288,6 +293,8 @@ fn main() {
                                            "original_source": src, "case": n_rt})
                     )
                     .unwrap();
+                } else {
+                    n_unshrunk += 1;
                 }
             }
             writeln!(f_exp, "{}", expected).unwrap();
@@ -392,6 +399,7 @@ fn main() {
             "corpus_cases": n_corpus,
             "max_size": max_size,
             "rt_mismatch": rt_mismatch,
+            "rt_mismatch_not_minimised": n_unshrunk,
             "span_trees": n_span,
             "span_nodes": n_span_nodes,
             "span_leaves_checked": n_span_leaves,
